@@ -11,7 +11,7 @@ PROP = {
                'no stack overflow (documents with > 600 open brackets run in a forked child), no hang (watchdog), outcome independent of the byte following the string_view, canonical documents accepted with every field equal to the model, '
                'and for any accepted strict-JSON document every reported field equals a same-named JSON string.',
  'level_note': 'Acceptance asserted only for canonical documents (strict schema, depth <= 32, numbers inside double range). Documents that are not strict RFC 8259 (invalid UTF-8, lone surrogates, raw controls) '
-               'are only required not to crash. The reference parser is self-checked on 36 mini vectors each run.',
+               'are only required not to crash. The reference parser is self-checked on 36 mini vectors each run. Second compiler: the same tapes also run against a g++ -O2 ASan/UBSan build of the code under test (engine \'tape-rc (second compiler…)\'), because the two compilers instrument and optimise undefined behaviour differently (e.g. abs(INT64_MIN) is only reported by g++\'s UBSan, and clang can fold such UB into a correct-looking result); failing tapes of that engine are kept as *.gcc.tape and replayed with that build.',
  'assumptions': ['8 MB main-thread stack (default ulimit) for the stack-overflow clause', 'duplicate keys: any same-named string is accepted as "the corresponding JSON string"'],
- 'tiers': {'quick': [rc(8000)],
-           'thorough': [rc(200000, W), fuzz(300, W, max_len=16 + 4096)]}}
+ 'tiers': {'quick': [rc(8000), rc(8000, suffix='_gcc')],
+           'thorough': [rc(200000, W), fuzz(300, W, max_len=16 + 4096), rc(200000, 4, suffix='_gcc')]}}
